@@ -1,3 +1,44 @@
-From Flodym Require Import Base.ND.
-Theorem placeholder : True. Proof. exact I. Qed.
-Print Assumptions placeholder.
+(* C04 — results do not depend on the storage order of dimensions.  Statements only.
+   [same_arr x x'] : same dimensions as a set and equal entries under equal labels, i.e. x' is x
+   stored in another order.  Proved here for the reductions (sum_to / sum_over, hence + - min max,
+   which reduce both operands first) and for products / quotients; slice reads, assignments, casts,
+   DataFrame round trips and stacking are carried by the exhaustive permutation correspondence
+   (every permutation of every participating array up to rank 3 / 4) — see DESIGN.md. *)
+From Coq Require Import List Arith Ring_theory Permutation.
+Import ListNotations.
+From Flodym Require Import Base.ND Base.Env Np.Einsum Model.Dims Model.Array Proofs.ArrayLemmas Proofs.C04Proofs.
+
+Theorem C04_sum_to_independent_of_storage_order :
+  forall (R : Type) (rO rI : R) (radd rmul rsub : R -> R -> R) (ropp : R -> R),
+  ring_theory rO rI radd rmul rsub ropp eq ->
+  forall (x x' : farr R) rs v v' e,
+  wf R x -> wf R x' -> same_arr R rO x x' ->
+  sum_values_to R rO rI radd rmul x rs = Ok v -> sum_values_to R rO rI radd rmul x' rs = Ok v' ->
+  in_range (lsizes R x) e rs -> incl rs (aletters R x) ->
+  den_nd R rO rs v e = den_nd R rO rs v' e.
+Proof. exact sum_values_to_congr. Qed.
+Print Assumptions C04_sum_to_independent_of_storage_order.
+
+Theorem C04_product_independent_of_storage_order :
+  forall (R : Type) (rO rI : R) (radd rmul rsub : R -> R -> R) (ropp : R -> R),
+  ring_theory rO rI radd rmul rsub ropp eq ->
+  forall (g : R -> R) (x x' y y' r r' : farr R) e,
+  NoDup (aletters R x) -> NoDup (aletters R x') -> NoDup (aletters R y) -> NoDup (aletters R y') ->
+  same_arr R rO x x' -> Permutation (adims y) (adims y') ->
+  den_nd R rO (aletters R y) (mk_nd (dshape (adims y)) (map g (avals y))) e
+  = den_nd R rO (aletters R y') (mk_nd (dshape (adims y')) (map g (avals y'))) e ->
+  env_ok R x e ->
+  mul_like R rO rI radd rmul g x y = Ok r -> mul_like R rO rI radd rmul g x' y' = Ok r' ->
+  (forall l, In l (aletters R r) ->
+     lookup e l < lookup (sizes R [(aletters R x, a_nd R x); (aletters R y, mk_nd (dshape (adims y)) (map g (avals y)))]) l) ->
+  (forall l, In l (aletters R r') ->
+     lookup e l < lookup (sizes R [(aletters R x', a_nd R x'); (aletters R y', mk_nd (dshape (adims y')) (map g (avals y')))]) l) ->
+  den R rO r e = den R rO r' e /\ Permutation (adims r) (adims r').
+Proof. exact mul_congr. Qed.
+Print Assumptions C04_product_independent_of_storage_order.
+
+Theorem C04_entrywise_maps_commute_with_labels :
+  forall (R : Type) (rO : R) (g : R -> R) (y : farr R) e, wf R y -> env_ok R y e ->
+  den_nd R rO (aletters R y) (mk_nd (dshape (adims y)) (map g (avals y))) e = g (den R rO y e).
+Proof. exact den_map. Qed.
+Print Assumptions C04_entrywise_maps_commute_with_labels.
